@@ -1,12 +1,18 @@
 """Translator for C15: cfuns.c `optimizers[]` + every `do_*` handler, corelib.c generic templates / fixed asm arrays,
 bytecode.c movopt read / removable tables  ->  Gen/Cfuns.lean.
 
-Every extractor asserts the shape it expects; code that is modelled by hand in Lean (opreduce, compreduce, opfunction,
-genericSS/SSI, can_be_imm, the special do_* bodies, remove_noops) is fingerprinted: if its normalised text is not one of
-the accepted variants an ExtractError is raised (= broken tie; the check then searches harder on the implementation)."""
+Every extractor asserts the shape it expects.  Code that is modelled by hand in Lean (opreduce, compreduce, opfunction,
+genericSS/SSI, reduce_target, can_be_imm, can_slot_be_imm, janetc_funopt, the special do_* bodies, janet_quick_asm, the selection block
+of janetc_call, janetc_check_nil_form) is no longer accepted by a text fingerprint: tools/gen/cfuns_skel.py parses each body into a
+canonical statement skeleton (control structure, conditions, every emit call with its opcode / operands / write flag, every other
+effect; independent of whitespace, comments, names of parameters and locals, pure helper variables, `(void)` casts) that is
+regenerated into Gen/Cfuns.lean (`skeletons`) and compared in Lean with the skeleton the model was written against
+(Props.C15.skeleton_*_ok, one theorem per function, so a changed body is named); the opcodes of the emit calls are read out of it by
+the theorems about the emitted code (Spec/FixedEmit.lean).  Fingerprints are still printed (informational)."""
 import hashlib
 import re
 from . import csrc
+from . import cfuns_skel
 from . import bytecode as gbc
 from .csrc import ExtractError
 
@@ -19,38 +25,14 @@ def fp(body):
     return hashlib.sha256(norm(body).encode()).hexdigest()[:12]
 
 
-# accepted fingerprints of hand-modelled C bodies (pinned tree; plus the variants produced by patches/fix-C15-*.diff)
-MODELLED = {
-    "cfuns.c:opreduce": {"62a278113a8c", "a3fa546ef718"},      # second: with patches/fix-C02-reduce-hint-alias.diff (target choice only)
-    "cfuns.c:compreduce": {"8ab77269ecf7", "bb9102bdd3ff"},
-    "cfuns.c:opfunction": {"8146011e71fe"},
-    "cfuns.c:genericSS": {"52a5007d7888"},
-    "cfuns.c:genericSSI": {"e7cda8067e7d"},
-    "cfuns.c:can_be_imm": {"124293de7c94", "eaae0cd98cea"},      # second: with patches/fix-C15-negative-zero-constant.diff
-    "cfuns.c:can_slot_be_imm": {"0cd9094c93c1"},
-    "cfuns.c:janetc_funopt": {"6b3b565ea172"},
-    "cfuns.c:do_debug": {"1ab94982b1fe"},
-    "cfuns.c:do_error": {"33eb438a7e28", "3467986d6084"},        # second: 0a37cea (argument forced into a near register; not modelled beyond the table row)
-    # cfuns.c:do_apply - no longer accepted by hash: its structure is extracted (extract_apply) and checked in Lean (apply_row_ok)
-    "cfuns.c:do_yield": {"dabb5bd41c25"},
-    "cfuns.c:do_put": {"81ff4d5b9a75", "ac7e7915cb4d"},          # second: with patches/fix-C15-target-alias.diff
-    "cfuns.c:do_get": {"07f7bdd0343c"},
-    "corelib.c:janet_quick_asm": {"e12b20bbbacb"},
-    # bytecode.c:janet_bytecode_remove_noops - not by hash either: extract_noops asserts both loops and regenerates the retarget table
-    "compile.c:janetc_call.selection": {"68f9fccd8e4b"},
-    "specials.c:janetc_check_nil_form": {"495826777292"},
-    "compile.c:has_spliced": None,          # filled below (accepted text asserted structurally in extract_callsite)
-}
-del MODELLED["compile.c:has_spliced"]
+# (until session 3 this was a table of accepted text fingerprints; the tie is now the regenerated skeleton, see extract_skeletons)
+MODELLED = {}
 
 
 def check_fp(key, body, found):
     h = fp(body)
     found[key] = h
-    acc = MODELLED.get(key)
-    if acc is not None and h not in acc:
-        raise ExtractError("%s: body changed (fingerprint %s, accepted %s) - the hand-written Lean model of it must be re-validated"
-                           % (key, h, sorted(acc)))
+    # informational only since session 4: the tie is the regenerated skeleton (extract_skeletons), checked in Lean
 
 
 def jconst(s):
@@ -72,13 +54,16 @@ def jop(s):
     return s
 
 
-def parse_guard(src, name):
-    body = norm(csrc.func_body(src, name))
-    body = body.replace("(void) opts;", "").replace("{", "").replace("}", "").strip()
-    m = re.match(r"^return janet_v_count\(args\) (==|<=|>=) (\d+);$", body)
+def parse_guard(src, name, ops):
+    """arity predicate from its skeleton (independent of parameter / local names): one `ret` line over janet_v_count(args)"""
+    sk = cfuns_skel.skeleton(src, name, ops)
+    if len(sk) != 1 or sk[0][1] != "ret":
+        raise ExtractError("arity predicate %s is not a single return: %r" % (name, sk))
+    body = sk[0][3]
+    m = re.match(r"^janet_v_count\(p1\) (==|<=|>=) (\d+)$", body)
     if m:
         return (m.group(1), [int(m.group(2))])
-    m = re.match(r"^int32_t arity = janet_v_count\(args\); return arity == (\d+) \|\| arity == (\d+);$", body)
+    m = re.match(r"^janet_v_count\(p1\) == (\d+) \|\| janet_v_count\(p1\) == (\d+)$", body)
     if m:
         return ("==", [int(m.group(1)), int(m.group(2))])
     raise ExtractError("arity predicate %s not recognised: %r" % (name, body))
@@ -104,16 +89,19 @@ def extract_cfuns(tree, found):
         check_fp("cfuns.c:" + k, csrc.func_body(src, k), found)
     out = []
     guards = {}
+    ops = dict(gbc.extract(tree)[0])
     for (tagname, tag), (guard, handler) in zip(tags, rows):
         if guard != "NULL" and guard not in guards:
-            guards[guard] = parse_guard(src, guard)
+            guards[guard] = parse_guard(src, guard, ops)
         b = norm(csrc.func_body(src, handler))
-        inner = b[1:-1].strip()
+        # classification through the canonical skeleton: a handler that only forwards to one of the generic emitters is one `ret` line
+        sk = cfuns_skel.skeleton(src, handler, ops)
+        inner = sk[0][3] if len(sk) == 1 and sk[0][1] == "ret" else ""
         h = None
-        m1 = re.match(r"^return opreduce\(opts, args, ([^,]+), ([^,]+), (.+\)), (.+\))\);$", inner)
-        m2 = re.match(r"^return compreduce\(opts, args, ([^,]+), ([^,]+), ([01])\);$", inner)
-        m3 = re.match(r"^return opfunction\(opts, args, ([^,]+), (.+\))\);$", inner)
-        m4 = re.match(r"^return genericSS\(opts, ([^,]+), args\[0\]\);$", inner)
+        m1 = re.match(r"^opreduce\(p0, p1, ([^,]+), ([^,]+), (.+\)), (.+\))\)$", inner)
+        m2 = re.match(r"^compreduce\(p0, p1, ([^,]+), ([^,]+), ([01])\)$", inner)
+        m3 = re.match(r"^opfunction\(p0, p1, ([^,]+), (.+\))\)$", inner)
+        m4 = re.match(r"^genericSS\(p0, ([^,]+), p1\[0\]\)$", inner)
         if m1:
             h = ("opreduce", jop(m1.group(1)), jop(m1.group(2)), jconst(m1.group(3)), jconst(m1.group(4)))
         elif m2:
@@ -126,15 +114,22 @@ def extract_cfuns(tree, found):
             check_fp("cfuns.c:" + handler, b, found)
             h = ("special", handler)
         out.append(dict(tag=tag, tagname=tagname, guard=guard, handler=handler, h=h))
-    # the one hard-coded special case inside opreduce: which op, which replacement
-    ob = norm(csrc.func_body(src, "opreduce"))
-    m = re.search(r"if \(op == (JOP_\w+)\) \{ janetc_emit_ssi\(c, (JOP_\w+), t, args\[0\], (-?\d+), 1\); \} else \{ janetc_emit_sss\(c, op, t, janetc_cslot\(unary\), args\[0\], 1\); \}", ob)
-    special_unary = (m.group(1), m.group(2), int(m.group(3))) if m else None
-    if not m and "janetc_emit_sss(c, op, t, janetc_cslot(unary), args[0], 1);" not in ob:
+    # the one hard-coded special case inside opreduce: which op, which replacement (read from the skeleton)
+    osk = cfuns_skel.skeleton(src, "opreduce", ops)
+    special_unary = None
+    for k, (d, kind, op, text) in enumerate(osk):
+        m = re.match(r"^p2 == (JOP_\w+)$", text) if kind == "if" else None
+        if m and k + 3 < len(osk) and osk[k + 1][1] == "emit" and osk[k + 2][1] == "else" and osk[k + 3][1] == "emit":
+            m2 = re.match(r"^ssi (JOP_\w+) \((\$\d+), p1\[0\], (-?\d+), 1\)$", osk[k + 1][3])
+            m3 = re.match(r"^sss p2 \((\$\d+), janetc_cslot\(p5\), p1\[0\], 1\)$", osk[k + 3][3])
+            if not (m2 and m3 and m2.group(2) == m3.group(1)):
+                raise ExtractError("unary case of opreduce not recognised")
+            special_unary = (m.group(1), m2.group(1), int(m2.group(3)))
+    if special_unary is None and not any(kind == "emit" and re.match(r"^sss p2 \(\$\d+, janetc_cslot\(p5\), p1\[0\], 1\)$", text) for d, kind, op, text in osk):
         raise ExtractError("unary case of opreduce not recognised")
     # immediate range
-    cb = norm(csrc.func_body(src, "can_be_imm"))
-    if "integer > INT8_MAX || integer < INT8_MIN" not in cb:
+    csk = cfuns_skel.skeleton(src, "can_be_imm", ops)
+    if not any(kind == "if" and text == "janet_unwrap_integer(p0) > INT8_MAX || janet_unwrap_integer(p0) < INT8_MIN" for d, kind, op, text in csk):
         raise ExtractError("can_be_imm range test not recognised")
     return out, guards, special_unary
 
@@ -453,6 +448,36 @@ def extract_noops(tree, ops):
         raise ExtractError("remove_noops: the dropped opcodes are %s, expected only JOP_NOOP" % dropped)
     return table
 
+# ------------------------------------------------------------------------------------------------ skeletons of hand-modelled bodies
+SKELETON_FUNCS = {
+    "src/core/cfuns.c": ["genericSS", "genericSSI", "opfunction", "can_be_imm", "can_slot_be_imm", "reduce_target", "opreduce", "compreduce",
+                         "janetc_funopt"],
+    "src/core/corelib.c": ["janet_quick_asm"],
+    "src/core/specials.c": ["janetc_check_nil_form"],
+}
+
+
+def extract_skeletons(tree, ops, rows):
+    """[(name, [(depth, kind, opcode or None, text)])] for every hand-modelled body + every `special` handler of optimizers[]"""
+    out = []
+    for rel, names in SKELETON_FUNCS.items():
+        src = csrc.strip_comments(csrc.read(tree, rel))
+        names = list(names)
+        if rel.endswith("cfuns.c"):
+            names += sorted(set(r["handler"] for r in rows if r["h"][0] == "special"))
+        for n in names:
+            out.append((n, cfuns_skel.skeleton(src, n, ops)))
+    src = csrc.strip_comments(csrc.read(tree, "src/core/compile.c"))
+    b = csrc.func_body(src, "janetc_call")
+    i = b.find("int specialized = 0;")
+    j = b.find("if (!specialized)")
+    if i < 0 or j < 0:
+        raise ExtractError("janetc_call: selection block not found")
+    params, _ = cfuns_skel.func_def(src, "janetc_call")
+    out.append(("janetc_call.selection", cfuns_skel.skeleton_of_text(b[i:j], "janetc_call.selection", ops, params)))
+    return out
+
+
 # ------------------------------------------------------------------------------------------------ render
 def lname(c):
     return "." + gbc.lean_name(c)
@@ -477,6 +502,7 @@ def render(tree):
     ash = extract_apply(tree, found)
     branches, generic_ops = extract_callsite(tree, found)
     noop_table = extract_noops(tree, ops)
+    skels = extract_skeletons(tree, ops, rows)
     o = [csrc.lean_header("src/core/cfuns.c, src/core/corelib.c, src/core/bytecode.c, src/core/compile.h"),
          "import JanetModel.Gen.Bytecode\n", "namespace JanetModel.Gen.Cfuns", "open JanetModel.Gen.Bytecode\n"]
     o.append("/-- constant argument of a specialisation (`janet_wrap_nil()` / `janet_wrap_integer(n)`) -/\ninductive Const where\n  | nil\n  | int (n : Int)\n  deriving DecidableEq, Repr, Inhabited\n")
@@ -561,11 +587,36 @@ def render(tree):
              "abbrev removeNoopsRetargets : List (Op × Field) := [")
     o.append(",\n".join("  (%s, .%s)" % (lname(x), f) for x, f in noop_table))
     o.append("]\n")
+    o.append("/-- one line of the canonical statement skeleton of a C body (tools/gen/cfuns_skel.py): nesting depth, kind (if / else / for / while /\n"
+             "    let / set / call / emit / ret / break / continue), first literal `JOP_*` opcode named in the line, canonical text -/\n"
+             "structure SkLine where\n  depth : Nat\n  kind : String\n  op : Option Op\n  text : String\n  deriving DecidableEq, Repr, Inhabited\n")
+    o.append("/-- skeletons of the C bodies that the Lean model mirrors by hand (compared with `Spec.Skeleton.*` in Props.C15.skeleton_*_ok) -/\n"
+             "abbrev skeletons : List (String × List SkLine) := [")
+    o.append(",\n".join('  ("%s", %s)' % (n, cfuns_skel.render_lines(ls, lname)) for n, ls in skels))
+    o.append("]\n")
     o.append("/-- fingerprints of the C bodies that are modelled by hand (informational) -/\ndef fingerprints : List (String × String) := [")
     o.append(",\n".join('  ("%s", "%s")' % kv for kv in sorted(found.items())))
     o.append("]\n")
     o.append("end JanetModel.Gen.Cfuns\n")
     return "\n".join(o), found
+
+
+def expected_skeletons_lean(tree):
+    """text of lean/JanetModel/Spec/Skeleton.lean for the given tree (run once when the model is (re)validated against a body):
+       python3 -c "from tools.gen import cfuns; print(cfuns.expected_skeletons_lean('/repo'))" """
+    opsl, types, jint = gbc.extract(tree)
+    found = {}
+    rows, guards, special = extract_cfuns(tree, found)
+    skels = extract_skeletons(tree, dict(opsl), rows)
+    o = ["import JanetModel.Gen.Cfuns\n",
+         "/-!\nC15: the statement skeletons of the C bodies the Lean model of the specialisations mirrors by hand, as they were when the model was\n"
+         "written / last validated (generated once by `tools.gen.cfuns.expected_skeletons_lean`, then kept by hand).  `Props.C15.skeleton_*_ok`\n"
+         "compare them with the skeletons regenerated from the tree under test.\n-/\n",
+         "namespace JanetModel.Spec.Skeleton\nopen JanetModel.Gen.Bytecode JanetModel.Gen.Cfuns\n"]
+    for n, ls in skels:
+        o.append("def %s : List SkLine :=\n   %s\n" % (n.replace(".", "_"), cfuns_skel.render_lines(ls, lname)))
+    o.append("end JanetModel.Spec.Skeleton\n")
+    return "\n".join(o)
 
 
 def fingerprints(tree):
